@@ -4,6 +4,7 @@ column sums in ppm, path probabilities scaled by the product of the column sums 
 import copy
 import itertools
 import math
+import random
 
 from pero_ocr.decoding import confusion_networks as CN
 from pero_ocr.decoding.bag_of_hypotheses import BagOfHypotheses
@@ -62,7 +63,7 @@ def score_of(hyp, vw, lw):
     return hyp["vis"] ** vw * (hyp["lm"] ** lw if hyp["lm"] else 1)
 
 
-def _final_part(net, normed=None):
+def _final_part(net, normed=None, max_paths=None):
     """normalize_cn / sorted_cn_paths / best_cn_path on (a copy of) the last network; normed: the normalised network as the
     API itself returned it (produce_cn_from_boh with normalize=True), used instead of a direct normalize_cn call"""
     fin = {"outcome": "ok", "norm": [], "nsum": [], "has_paths": False, "pscale": 0, "paths": [], "best": []}
@@ -77,7 +78,7 @@ def _final_part(net, normed=None):
         for s, col in zip(sums, net):
             den *= max(1, int(round(s)))
             combos *= len(col)
-        if net and combos <= MAX_PATHS and den <= MAX_DEN:
+        if net and combos <= (max_paths or MAX_PATHS) and den <= MAX_DEN:
             fin["has_paths"] = True
             fin["pscale"] = den
             fin["paths"] = [{"s": ids_of(s), "p": _fixed(p, den * 1000)} for s, p in CN.sorted_cn_paths(copy.deepcopy(norm))]
@@ -102,8 +103,9 @@ def _single_part(first, mode, vw, lw):
     return single
 
 
-def replay_history(case):
-    """case = {"mode": "add"|"boh", "hyps": [{"h": [..], "vis": int, "lm": int}], "vw": int, "lw": int}"""
+def replay_history(case, max_paths=None):
+    """case = {"mode": "add"|"boh", "hyps": [{"h": [..], "vis": int, "lm": int}], "vw": int, "lw": int}
+    max_paths: enumerate the paths only for networks with at most that many arc combinations (default MAX_PATHS)"""
     mode, hyps, vw, lw = case["mode"], case["hyps"], case["vw"], case["lw"]
     rec = {"mode": mode, "hyps": hyps, "vw": vw, "lw": lw, "outcome": [], "nets": []}
     net = []
@@ -138,7 +140,7 @@ def replay_history(case):
             normed = CN.produce_cn_from_boh(boh, visual_weight=float(vw), lm_weight=float(lw), normalize=True)
         except Exception:
             normed = None
-    rec["fin"] = _final_part(last_ok, normed)
+    rec["fin"] = _final_part(last_ok, normed, max_paths)
     rec["single"] = _single_part(hyps[0], mode, vw, lw)
     return rec
 
@@ -158,3 +160,202 @@ def boh_histories(alphabet, maxlen, adds, vis, lms, vw, lw):
     opts = [{"h": h, "vis": v, "lm": l} for h in strings(alphabet, maxlen) for v in vis for l in lms]
     for combo in itertools.product(opts, repeat=adds):
         yield {"mode": "boh", "hyps": [dict(c) for c in combo], "vw": vw, "lw": lw}
+
+
+# ----------------------------------------------------------------------------------------------------------------------
+# HISTORY: long-lived bags.  The statement is about every addition / every export of a bag, whatever the caller did with the
+# same objects before.  A bag lives as long as its text line is worked on: it grows, is exported with several weight pairs,
+# normalised and unnormalised, an export may fail, it is re-ordered with its own sort() - and is exported again.
+def _add_to_bag(boh, g):
+    boh.add(text_of(g["h"]), math.log(g["vis"]), math.log(g["lm"]) if g["lm"] else None)
+
+
+def _failing_export(boh, lw):
+    """an export of the long-lived bag that fails (a weight that is not a number); the exception is the caller's problem, the
+    bag is used on afterwards"""
+    try:
+        CN.produce_cn_from_boh(boh, visual_weight=None, lm_weight=float(lw), normalize=False)
+    except Exception:
+        pass
+
+
+def replay_reuse(case):
+    """case as for replay_history (mode "boh").  Returns one or two traces of the ordinary format:
+      grow    ONE bag object: add, export, add, export ... (nets[j] = export of the bag holding the first j+1 hypotheses); between
+              the recorded exports the same bag is exported with another weight pair (normalised) and once with a failing call;
+              the last recorded network is exported AFTER the bag's normalised export (fin.norm = that normalised export);
+      resort  the same bag after its own sort(): hyps = the bag in its new iteration order; nets[j] for the proper prefixes come
+              from fresh bags (as in replay_history), the LAST network and the normalised network are exports of the long-lived,
+              re-ordered bag.  Judged by the ordinary step clause: the export of a bag of n hypotheses must be an addition step
+              (score of the n-th hypothesis on one arc of every position ...) away from the export of its first n-1.
+    Which bag methods are used: add, sort, iteration (transcript / vis_sc / lm_sc of the items, the interface produce_cn_from_boh
+    itself consumes).  If sort() / iteration do not work the resort trace is left out (not C14's business)."""
+    hyps, vw, lw = case["hyps"], case["vw"], case["lw"]
+    rec = {"mode": "boh", "hyps": hyps, "vw": vw, "lw": lw, "outcome": [], "nets": [], "reuse": {"kind": "grow", "orig": hyps}}
+    boh = BagOfHypotheses()
+    normed, last_ok = None, []
+    for j, hyp in enumerate(hyps):
+        try:
+            _add_to_bag(boh, hyp)
+            if j % 2 == 0:
+                CN.produce_cn_from_boh(boh, visual_weight=float(vw + 1), lm_weight=float(lw), normalize=True)
+            else:
+                _failing_export(boh, lw)
+            if j == len(hyps) - 1:
+                normed = CN.produce_cn_from_boh(boh, visual_weight=float(vw), lm_weight=float(lw), normalize=True)
+            net = CN.produce_cn_from_boh(boh, visual_weight=float(vw), lm_weight=float(lw), normalize=False)
+            rec["nets"].append(project_net(net))
+            rec["outcome"].append("ok")
+            last_ok = copy.deepcopy(net)
+        except Exception as ex:
+            rec["nets"].append([])
+            rec["outcome"].append("exception:" + type(ex).__name__)
+            break
+    while len(rec["outcome"]) < len(hyps):
+        rec["nets"].append([])
+        rec["outcome"].append("not-run")
+    complete = all(o == "ok" for o in rec["outcome"])
+    rec["fin"] = _final_part(last_ok, normed if complete else None)
+    rec["single"] = _single_part(hyps[0], "boh", vw, lw)
+    if not complete:
+        return [rec]
+    # ---- the bag is re-ordered by its own method and exported again
+    try:
+        boh.sort()
+        order = [(h.transcript, h.vis_sc, h.lm_sc) for h in boh]
+    except Exception:
+        return [rec]
+    pool = {}
+    for g in hyps:
+        pool.setdefault((text_of(g["h"]), math.log(g["vis"]), math.log(g["lm"]) if g["lm"] else None), []).append(g)
+    hyps2 = []
+    for key in order:
+        if not pool.get(key):
+            return [rec]           # the re-ordered bag does not hold what was put in: not a statement of C14
+        hyps2.append(pool[key].pop())
+    if len(hyps2) != len(hyps):
+        return [rec]
+    rec2 = replay_history({"mode": "boh", "hyps": hyps2, "vw": vw, "lw": lw})
+    rec2["reuse"] = {"kind": "resort", "orig": hyps}
+    if all(o == "ok" for o in rec2["outcome"]):
+        try:
+            _failing_export(boh, lw)
+            net = CN.produce_cn_from_boh(boh, visual_weight=float(vw), lm_weight=float(lw), normalize=False)
+            rec2["nets"][-1] = project_net(net)
+            normed = CN.produce_cn_from_boh(boh, visual_weight=float(vw), lm_weight=float(lw), normalize=True)
+            rec2["fin"] = _final_part(copy.deepcopy(net), normed)
+        except Exception as ex:
+            rec2["nets"][-1] = []
+            rec2["outcome"][-1] = "exception:" + type(ex).__name__
+    return [rec, rec2]
+
+
+def run_reuse(cases, procs=6):
+    return [t for ts in pmap(replay_reuse, cases, procs=procs) for t in ts]
+
+
+# ----------------------------------------------------------------------------------------------------------------------
+# HISTORY x SCALE: one long-running process.  A decoding process adds hypotheses to networks all day; the statement holds for
+# every single addition, however many additions (to whatever networks) the process has already made and whether the same
+# (network, hypothesis) pair has been seen before.  A session = `n` DISTINCT two-step histories (base string, then one
+# hypothesis) executed one after the other in ONE process (pass 1), two failing calls, then histories of pass 1 again (pass 2).
+# n is chosen beyond 1024 and beyond 65 536.  Every recorded history is an ordinary trace (judged by the ordinary step
+# clauses); only a sample is recorded (TLC could not validate 140 000 traces in the quick tier): the other histories of pass 1
+# are executed but not looked at (an exception among them is recorded), pass 2 consists of the sampled histories, half of them
+# from the histories the process executed first.  Paths are enumerated for the small networks only (SESSION_MAX_PATHS).
+SESSION_MAX_PATHS = 48
+def session_pairs(spec):
+    """deterministic: all (base, hypothesis) pairs of the session in execution order, with their scores"""
+    rng = random.Random(spec["seed"])
+    k = spec["alphabet"]
+    hyps = strings(k, spec["maxlen"])
+    bases = []
+    lens = spec["base_lens"]
+    while len(bases) < spec["bases"]:
+        b = [rng.randint(1, k) for _ in range(lens[len(bases) % len(lens)])]
+        if b not in bases:
+            bases.append(b)
+    pairs = [(b, h) for b in bases for h in hyps]
+    rng.shuffle(pairs)
+    return [{"mode": "add", "vw": 1, "lw": 1,
+             "hyps": [{"h": b, "vis": 1 + (i + len(h)) % 3, "lm": 0}, {"h": h, "vis": 1 + i % 2, "lm": 0}]}
+            for i, (b, h) in enumerate(pairs)]
+
+
+def session_recorded(spec, n):
+    """indices recorded in pass 1 / executed and recorded in pass 2 (deterministic)"""
+    rng = random.Random(spec["seed"] + 1)
+    one = set(rng.sample(range(n), min(n, spec["rec1"])))
+    if spec["rec2"] >= n:
+        two = list(range(n))
+    else:
+        # half of the sample from the pairs executed first (the ones a bounded memory has had to give up), half from all
+        head = max(1, int(n * spec["head"]))
+        two = sorted(set(rng.sample(range(head), min(head, spec["rec2"] // 2))) | set(rng.sample(range(n), spec["rec2"] // 2)))
+    return one, two
+
+
+def _bare(case):
+    """the two additions, nothing recorded"""
+    net = []
+    for hyp in case["hyps"]:
+        net = CN.add_hypothese(net, text_of(hyp["h"]), float(score_of(hyp, case["vw"], case["lw"])))
+
+
+def _failed(case, ex):
+    rec = dict(case, outcome=["exception:" + type(ex).__name__] * len(case["hyps"]), nets=[[] for _ in case["hyps"]])
+    rec["fin"] = {"outcome": "not-run", "norm": [], "nsum": [], "has_paths": False, "pscale": 0, "paths": [], "best": []}
+    rec["single"] = {"outcome": "not-run", "best": [], "paths": []}
+    return rec
+
+
+def _failing_adds():
+    """two calls that fail, on throw-away networks: a transcript that is no sequence, and a score that is no number (fails in
+    the middle of the walk).  What they raise is their caller's problem; the process goes on."""
+    for transcript, score in ((12345, 1.0), ("abab", None)):
+        try:
+            CN.add_hypothese(CN.add_hypothese([], "abba", 1.0), transcript, score)
+        except Exception:
+            pass
+
+
+def run_session(spec, only=None):
+    """all traces recorded in the session (each with "session": {"spec", "pass", "index"}); only = (pass, index): stop there and
+    return just that trace (replay: the history before it is re-executed)"""
+    cases = session_pairs(spec)
+    one, two = session_recorded(spec, len(cases))
+    out = []
+
+    def step(p, i, record):
+        if record:
+            tr = replay_history(cases[i], SESSION_MAX_PATHS)
+        else:
+            try:
+                _bare(cases[i])
+                return None
+            except Exception as ex:      # part of the observation even where nothing else is recorded
+                tr = _failed(cases[i], ex)
+        tr["session"] = {"spec": spec, "pass": p, "index": i}
+        return tr
+    for i in range(len(cases)):
+        tr = step(1, i, i in one or only == (1, i))
+        if only == (1, i):
+            return [tr]
+        if tr is not None:
+            out.append(tr)
+    _failing_adds()
+    for i in two:
+        tr = step(2, i, True)
+        if only == (2, i):
+            return [tr]
+        out.append(tr)
+    return out if only is None else []
+
+
+def run_sessions(specs):
+    """every session in its own (forked) process, at most two at a time"""
+    if len(specs) < 2:
+        return [t for s in specs for t in run_session(s)]
+    import multiprocessing as mp
+    with mp.get_context("fork").Pool(2) as pool:
+        return [t for ts in pool.map(run_session, specs, chunksize=1) for t in ts]
